@@ -186,3 +186,5 @@ V("C15", "copy_paste_name_left", "fire", [("annet/mesh/registry.py", "          
 V("C15", "remote_as_local", "fire", [("annet/mesh/models_converter.py", "remote_as=ASN(connected.asnum),", "remote_as=ASN(local.asnum),")], rule="C15.R3")
 V("C15", "uselast_field", "fire", [("annet/mesh/peer_models.py", "    families: Annotated[set[FamilyName], Unite()]", "    families: Annotated[set[FamilyName], UseLast()]")], rule="C15.R4")
 V("C15", "handler_same_order", "fire", [("annet/mesh/executor.py", "        else:\n            rule.handler(peer_neighbor, peer_device, session)", "        else:\n            rule.handler(peer_device, peer_neighbor, session)")], rule="C15.R2")
+V("C20", "make_pre_writes_match", "fire", [(PT, "        raw_rule = match[\"raw_rule\"]\n        key = match[\"key\"]\n", "        raw_rule = match[\"raw_rule\"]\n        key = match[\"key\"]\n        match[\"attrs\"][\"seen\"] = True\n")], rule="C20.R1b")
+V("C20", "logic_writes_rule_pre", "fire", [(CM, "def permanent(rule, key, diff, **kwargs):\n", "def permanent(rule, key, diff, **kwargs):\n    kwargs[\"rule_pre\"][\"attrs\"][\"touched\"] = True\n")], rule="C20.R1b")
